@@ -330,6 +330,10 @@ class Scheduler:
         if self.aborting:
             return
         self.aborting = True
+        # From here on the released threads unwind concurrently (real parallelism): nothing they log belongs to the
+        # deterministic execution.  Freeze the trace (added by S7 for C18: digests of Deadlock runs were unstable).
+        self.world.trace = list(self.world.trace)
+        self.world.log = lambda *a, **k: None  # type: ignore[method-assign]
         me = self.current
         main = self.threads[0]
         main.abort_exc = exc
